@@ -200,9 +200,14 @@ def c10(tier, seed):
 
 
 def c16_e1(tier, r):
+    import glob, os
+    dump = os.path.join(driver.BUILD, "e1-out", "accepted")
+    for f in glob.glob(dump + ".*"):
+        os.remove(f)
     for feats in (("serde-compat",), ()):
         exe = build_e1(feats)
-        m = run_e1(exe, "total", tier)
+        # the serde-compat run also writes the accepted ts-spelled items out for rustc
+        m = run_e1(exe, "total", tier, dump=dump if feats else None)
         m["distinct"] = {f"{feats}:{x}" for x in m["distinct"]}
         r.absorb(m, ("+".join(feats) or "no-features") + ".")
 
@@ -216,15 +221,15 @@ def c16(tier, seed):
     name, crates, bins, cases, excluded = driver.e2_build("main", tier)
     r.evaluations += len(cases)
     r.counters["main_corpus_cases_compiled_by_rustc"] = len(cases) - len(excluded)
-    for corpus in ("generic", "present"):
-        _, _, _, cases2, excluded2 = driver.e2_build(corpus, tier)
+    for corpus in ("generic", "present", "accepted"):
+        _, _, _, cases2, excluded2 = driver.e2_build(corpus, "quick" if corpus == "accepted" else tier)
         r.evaluations += len(cases2)
         r.counters[corpus + "_corpus_cases_compiled_by_rustc"] = len(cases2) - len(excluded2)
         excluded = {**excluded, **{f"{corpus}:{k}": v for k, v in excluded2.items()}}
     for cid, msg in excluded.items():
         r.violations.append({"class": {"check": "accepted-expansion-does-not-compile"}, "count": 1,
                              "examples": [{"case": cid, "rustc": msg}]})
-    r.rule += "; plus rustc's verdict: every case of the main, generic and present E2 corpora (types in the supported fragment, valid by construction, incl. lifetimes, const parameters with defaults, bounds) must compile"
+    r.rule += "; plus rustc's verdict: every case of the main, generic and present E2 corpora (types in the supported fragment, valid by construction, incl. lifetimes, const parameters with defaults, bounds) must compile, and so must every ts-spelled item with <= 1 attribute option (thorough: <= 2 valid options) that the in-process run saw the derive ACCEPT (`accepted` corpus, ~4k items; excluded: `bound`, which replaces the generated bounds, `concrete` naming no parameter, `optional` on a non-Option - the designed IsOption diagnostic)"
     r.assumptions = ["proc_macro2/syn behave in the unit-test build (fallback mode) as inside rustc",
                      "the validity table in e1_macros.rs::expected_outcome transcribes the documented incompatibilities; items with an invalid-value option are only required not to panic"]
     return r
